@@ -828,6 +828,15 @@ func (c19) Run(s *scn.Scn, x *sim.Exec) {
 	for i, f := range regFiles {
 		env.regSets[i%nc] = append(env.regSets[i%nc], f)
 	}
+	if s.P["greg_bias"] == 1 {
+		// files that declare extensions first (registration is order-independent for files of one
+		// closure copy as far as the registry is concerned: it does not check that imports are registered)
+		for c := range env.regSets {
+			sort.SliceStable(env.regSets[c], func(i, j int) bool {
+				return env.regSets[c][i].Extensions().Len() > 0 && env.regSets[c][j].Extensions().Len() == 0
+			})
+		}
+	}
 	regNext := make([]int, nc)
 	regExts := make([][]protoreflect.ExtensionDescriptor, nc)
 	ptrs := make([][]ptrRec, nc)
@@ -999,7 +1008,7 @@ func (c19) Run(s *scn.Scn, x *sim.Exec) {
 			}
 			if fd.Extensions().Len() > 0 {
 				// by number, the way the wire decoder asks: found (then the right one) or not yet there
-				xd := fd.Extensions().Get(int(op.M) % fd.Extensions().Len())
+				xd := fd.Extensions().Get(int(op.M) % min(fd.Extensions().Len(), 3)) // (registration takes the first three)
 				if !xd.ContainingMessage().IsPlaceholder() {
 					xt, err4 := protoregistry.GlobalTypes.FindExtensionByNumber(xd.ContainingMessage().FullName(), xd.Number())
 					if err4 == nil && xt.TypeDescriptor().Descriptor() != xd {
